@@ -98,12 +98,16 @@ func init() {
 
 func init() {
 	Registry["C08"] = func(c *Ctx) (int, error) {
-		return RunWire(c, &WireSpec{GenModule: "Gen_Wire", GenConsts: map[string]string{"OptMode": `"default"`, "ValMode": `"all"`, "Muts": `"none"`}, GenInvs: wireTheorems,
+		evolve := &WireSpec{GenModule: "Gen_Evolve", GenInvs: []string{"IsExtension", "ForwardCompat", "Export"},
+			Op: "rfault", Errs: []string{"boom", "unexpected"}, JudgeProp: "C08", DevProps: []string{"C08"}, Level: "model_checking",
+			Rule: "reader failing at every byte offset while the OLDER schema version decodes a NEWER version's bytes (the path that skips unknown message fields), over the schema pairs of C04",
+			Nontrivial: func(s *wireSchema, cs *wireCase) bool { return len(cs.Enc) > 2 }}
+		return RunWireParts(c, []*WireSpec{{GenModule: "Gen_Wire", GenConsts: map[string]string{"OptMode": `"default"`, "ValMode": `"all"`, "Muts": `"none"`}, GenInvs: wireTheorems,
 			Op: "faults", Errs: []string{"boom", "eof", "unexpected"}, JudgeProp: "C08", DevProps: []string{"C08"}, Level: "model_checking",
 			Rule: "cases = TLC-enumerated (shape x context x value); reader: for EVERY byte offset k < len the reader fails after k bytes with {custom error, io.EOF, io.ErrUnexpectedEOF} in the styles error-after-last-byte / error-with-last-bytes / one-byte-reads; writer: for EVERY call index k below the number of Write calls of a fault-free run the k-th Write fails (writing nothing / half); non-trivial if the encoding has more than 2 bytes",
 			Assume: wireAssume,
 			CaseFilter: func(s *wireSchema, cs *wireCase) bool { return len(cs.Enc) <= 400 },
-			Nontrivial: func(s *wireSchema, cs *wireCase) bool { return len(cs.Enc) > 2 }})
+			Nontrivial: func(s *wireSchema, cs *wireCase) bool { return len(cs.Enc) > 2 }}, evolve})
 	}
 }
 
@@ -115,5 +119,15 @@ func init() {
 			Assume: append([]string{"a Read issued when the current record is exhausted is what would block on a live connection"}, wireAssume...),
 			CaseFilter: func(s *wireSchema, cs *wireCase) bool { return len(cs.Enc) <= 200 && (c.Tier == "thorough" || (cs.Vi+cs.Sid+c.Seed)%2 == 0) },
 			Nontrivial: func(s *wireSchema, cs *wireCase) bool { return len(cs.Enc) > 2 }})
+	}
+}
+
+func init() {
+	Registry["C04"] = func(c *Ctx) (int, error) {
+		return RunWire(c, &WireSpec{GenModule: "Gen_Evolve", GenInvs: []string{"IsExtension", "ForwardCompat", "Export"},
+			Op: "decref", JudgeProp: "C04", DevProps: []string{"C04"}, Level: "model_checking",
+			Rule: "histories = TLC-enumerated pairs of schema versions (message Ev gains 1-2 fields with fresh higher indices of every leaf class; optionally the reader has deprecated a field the writer still sends) x nesting context {top level, struct field, array element, map value, message field, union branch, field of a union branch's struct/message} x values of the newer version (every subset of fields present); the newer version's reference bytes are decoded by UnmarshalBebop and DecodeBebop generated from the OLDER version; ForwardCompat is model-checked on the ideal decoder; non-trivial if the value carries a field unknown to the older version or deprecated there",
+			Assume: wireAssume,
+			Nontrivial: func(s *wireSchema, cs *wireCase) bool { return string(cs.Want) != string(cs.V) }})
 	}
 }
